@@ -367,6 +367,10 @@ class CodeGenerator(NodeVisitor):
         # Tracks parameter definition blocks
         self._param_def_block: list[set[str]] = []
 
+        # Number of Python loops the code being written is nested in
+        # (reset inside the function of a macro or call block)
+        self._loop_nesting = 0
+
         # Tracks the current context.
         self._context_reference_stack = ["context"]
 
@@ -684,7 +688,9 @@ class CodeGenerator(NodeVisitor):
             self.outdent()
         self.pop_parameter_definitions()
 
+        loop_nesting, self._loop_nesting = self._loop_nesting, 0
         self.blockvisit(node.body, frame)
+        self._loop_nesting = loop_nesting
         self.return_buffer_contents(frame, force_unescaped=True)
         self.leave_frame(frame, with_python_scope=True)
         self.outdent()
@@ -1299,7 +1305,9 @@ class CodeGenerator(NodeVisitor):
         self.writeline("_loop_vars = {}")
         if node.else_:
             self.writeline(f"{iteration_indicator} = 0")
+        self._loop_nesting += 1
         self.blockvisit(node.body, loop_frame)
+        self._loop_nesting -= 1
         self.outdent()
         if loop_filter_gen is not None:
             self.outdent()
@@ -1977,9 +1985,13 @@ class CodeGenerator(NodeVisitor):
         self.write(self.derive_context(frame))
 
     def visit_Continue(self, node: nodes.Continue, frame: Frame) -> None:
+        if not self._loop_nesting:
+            self.fail("'continue' outside loop", node.lineno)
         self.writeline("continue", node)
 
     def visit_Break(self, node: nodes.Break, frame: Frame) -> None:
+        if not self._loop_nesting:
+            self.fail("'break' outside loop", node.lineno)
         self.writeline("break", node)
 
     def visit_Scope(self, node: nodes.Scope, frame: Frame) -> None:
